@@ -501,7 +501,7 @@ def crash_case(base, scenario, k, mode, torn, blob_of, with_purge):
 
 
 def run_scenario(args):
-    scenario, modes, purge_every, stride = args
+    scenario, modes, purge_every, stride, deadline = args
     sc.install()
     patch_injection_points()
     INJ.disarm()
@@ -511,20 +511,23 @@ def run_scenario(args):
         labels = count_points(base, scenario)
         found0 = [dict(f, case={'kind': 'history', 'ops': scenario['prefix']}) for f in aud0.found]
         execs = aud0.execs + 1
-        n = 0
+        n = skipped = 0
         points = []
         for k in range(1, len(labels) + 1, stride):
             variants = [(m, False) for m in modes]
             if labels[k - 1] == 'pickle.dump':
                 variants += [(m, True) for m in modes]
             for mode, torn in variants:
+                if sc.expired(deadline):
+                    skipped += 1
+                    continue
                 found, e, label = crash_case(base, scenario, k, mode, torn, aud0.blob_of, purge_every and (k % purge_every == 0))
                 execs += e
                 n += 1
                 points.append(labels[k - 1] + ('(torn)' if torn else ''))
                 case = {'kind': 'crash', 'prefix': scenario['prefix'], 'victim': scenario['victim'], 'k': k, 'mode': mode, 'torn': torn, 'point': labels[k - 1]}
                 out.extend(dict(f, case=case) for f in found)
-        return found0 + out, execs, n, labels
+        return found0 + out, execs, n, labels, skipped
     finally:
         base.destroy()
 
@@ -534,9 +537,12 @@ def run_scenario(args):
 # --------------------------------------------------------------------------
 
 
-def _histories(cases):
+def _histories(args):
+    cases, deadline = args
     out = []
     for case in cases:
+        if sc.expired(deadline):
+            break
         found, execs = run_history(case)
         out.append((case, found, execs))
     return out
@@ -565,18 +571,22 @@ def run(tier: str, seed: int) -> dict:
         scen = [(SCENARIOS[1], ['raise', 'exit'], 0, 1), (SCENARIOS[0], ['raise'], 4, 2), (SCENARIOS[2], ['raise'], 0, 2)]
         procs = 1
     else:
-        hist = enum + [random_history(rng) for _ in range(1500)]
-        scen = [(s, ['raise', 'exit'], 2, 1) for s in SCENARIOS + [random_scenario(rng) for _ in range(60)]]
+        hist = enum + [random_history(rng) for _ in range(900)]
+        scen = [(s, ['raise', 'exit'], 2, 1) for s in SCENARIOS + [random_scenario(rng) for _ in range(28)]]
         procs = min(16, os.cpu_count() or 1)
+    deadline = t0 + sc.BUDGET_S[tier]
+    # single process: the histories may use at most a third of the budget
+    h_deadline = deadline if procs > 1 else t0 + sc.BUDGET_S[tier] / 3
+    scen = [s + (deadline,) for s in scen]
     if procs > 1:
         import multiprocessing
 
         with multiprocessing.get_context('fork').Pool(procs) as pool:
-            h_async = pool.map_async(_histories, _chunks(hist, procs * 4))
+            h_async = pool.map_async(_histories, [(c, deadline) for c in _chunks(hist, procs * 4)])
             s_results = pool.map(run_scenario, scen, chunksize=1)
             h_results = [r for part in h_async.get() for r in part]
     else:
-        h_results = _histories(hist)
+        h_results = _histories((hist, h_deadline))
         s_results = [run_scenario(s) for s in scen]
     viol = sc.Violations()
     execs = 0
@@ -588,13 +598,14 @@ def run(tier: str, seed: int) -> dict:
             viol.add(f['clause'], f['signature'], {'kind': 'history', 'ops': case['ops'][: f['step'] + 1]}, f['observed'], f['expected'])
     crash_cases = 0
     point_kinds = set()
-    for (scenario, modes, _, stride), (found, n, ncases, labels) in zip(scen, s_results):
+    skipped = len(hist) - len(h_results)
+    for (scenario, modes, _, stride, _), (found, n, ncases, labels, sk) in zip(scen, s_results):
         execs += n
+        skipped += sk
         crash_cases += ncases
         point_kinds.update(labels)
-        for k in range(0, len(labels), stride):
-            for m in modes:
-                sigs.add(repr((scenario, k, m)))
+        for i in range(ncases):
+            sigs.add(repr((scenario, i)))
         for f in found:
             viol.add(f['clause'], _signature(f), f['case'], f['observed'], f['expected'])
     return {
@@ -613,8 +624,9 @@ def run(tier: str, seed: int) -> dict:
         'samples': [hist[0], hist[-1], {'kind': 'crash', 'prefix': SCENARIOS[1]['prefix'], 'victim': SCENARIOS[1]['victim'], 'k': 9, 'mode': 'exit', 'torn': False}],
         'violations': viol.as_list(),
         'clauses': CLAUSES,
-        'histories': len(hist),
+        'histories': len(h_results),
         'crash_runs': crash_cases,
+        'skipped_for_time': skipped,
         'wall_s': round(time.time() - t0, 2),
     }
 
